@@ -125,6 +125,7 @@ type stWorld struct {
 	captureOff int64
 	ingestDone bool
 	covertPlan func(S *simnet.Conn) // optional: fault plan for covert connections
+	liveCached bool                 // live verdicts are reported as cached ones
 }
 
 func stDefaultOpts() stOpts {
@@ -271,6 +272,10 @@ func (t *stTester) PhantomIsLive(addr string, port uint16) (bool, error) {
 	w.r.Logf("probe %s:%d -> live=%v", addr, port, live)
 	hook.Yield("liveness-probe-done")
 	if live {
+		if w.liveCached {
+			// the verdict a caching tester gives for a phantom it already knows to be live
+			return true, liveness.ErrCachedPhantom
+		}
 		return true, liveness.ErrLiveHost
 	}
 	return false, liveness.NotLive
